@@ -3,8 +3,12 @@ known findings, scratch directories."""
 import json, os, sys, time, hashlib, shutil, tempfile, atexit, subprocess
 
 VERIF = os.path.dirname(os.path.dirname(os.path.dirname(os.path.abspath(__file__))))
-EVID = os.path.join(VERIF, 'evidence')
-REPLAYS = os.path.join(VERIF, 'replays')
+# VERIF_OUT redirects evidence and replay files (used when the checks are run
+# against a scratch tree with a seeded change, VERIF_REPO=<tree>, so that the
+# committed evidence of /repo is not overwritten)
+_OUT = os.environ.get('VERIF_OUT') or VERIF
+EVID = os.path.join(_OUT, 'evidence')
+REPLAYS = os.path.join(_OUT, 'replays')
 SCRATCH_ROOT = os.path.join(VERIF, 'build', 'scratch')
 NCPU = os.cpu_count() or 4
 
